@@ -4,6 +4,7 @@ import Nice.Drv.PTcp
 import Nice.Drv.Prio
 import Nice.Drv.Role
 import Nice.Drv.CState
+import Nice.Drv.Copy
 import Nice.Drv.Addr
 import Nice.Drv.Stun
 import Nice.Drv.Sock
@@ -28,6 +29,7 @@ def step (s : St) (line : String) : St × String :=
   | "prio" :: ws => (s, prioStep ws)
   | "role" :: ws => (s, roleStep ws)
   | "cstate" :: ws => (s, cstateStep ws)
+  | "copy" :: ws => (s, copyStep ws)
   | "plist" :: ws => let (p, o) := plistStep s.prio ws; ({ s with prio := p }, o)
   | "addr" :: ws => (s, addrStep ws)
   | "sdp" :: ws => let (t, o) := sdpStep s.addr ws; ({ s with addr := t }, o)
